@@ -43,7 +43,13 @@ PLANS = {
                 thorough=dict(cfgs=SEM + ["mid", "host"], shards=16, cases=8000, scale=900, maxsize=100)),
     "C10": dict(level="exploration", quick=dict(cfgs=["small-wrap", "small-nosse-wrap"], shards=16, cases=700, scale=400, maxsize=100),
                 thorough=dict(cfgs=["small-wrap", "small-nosse-wrap"], shards=16, cases=8000, scale=900, maxsize=100)),
-    "C13": dict(level="exploration", quick=dict(cfgs=["small", "small-nosse", "mid"], shards=16, cases=1200, scale=500, maxsize=100),
+    "C20": dict(level="fault_enumeration",
+                quick=dict(cfgs=["small-wrap-strict", "small-ts-wrap-strict", "small-nosse-wrap-strict"], shards=15, cases=4, scale=100, strict=True, san_to_stderr=True),
+                thorough=dict(cfgs=["small-wrap-strict", "small-ts-wrap-strict", "small-nosse-wrap-strict"], shards=15, cases=60, scale=100, strict=True, san_to_stderr=True)),
+    "C11": dict(level="exploration",
+                quick=dict(cfgs=["small-strict", "small-nosse-strict", "small-ts-wrap-strict", "small-wrap-strict"], shards=16, cases=900, scale=400, strict=True, san_to_stderr=True),
+                thorough=dict(cfgs=["small-strict", "small-nosse-strict", "small-ts-wrap-strict", "small-wrap-strict"], shards=16, cases=10000, scale=900, strict=True, san_to_stderr=True)),
+    "C13": dict(level="exploration", quick=dict(cfgs=["small", "small-nosse", "mid"], shards=15, cases=1200, scale=500, maxsize=100),
                 thorough=dict(cfgs=["small", "small-nosse", "mid", "host"], shards=16, cases=15000, scale=1200, maxsize=100)),
     "C14": dict(level="exploration", quick=dict(cfgs=["small-wrap", "small-nosse-wrap"], shards=16, cases=500, scale=100, maxsize=100),
                 thorough=dict(cfgs=["small-wrap", "small-nosse-wrap", "small-ts-wrap-strict"], shards=16, cases=6000, scale=100, maxsize=100)),
@@ -186,22 +192,29 @@ def generic_check(prop, tier, seed, plan=None, binaries=None, extra_args=None, s
     rundir = os.path.join(RUN, "%s-%s" % (prop, tier))
     shutil.rmtree(rundir, ignore_errors=True)
     os.makedirs(rundir)
-    nsh = plan["shards"]
+    # every configuration gets its own complete set of shards, so enumerated (deterministic) cases are run in
+    # full under each configuration and random cases use different seeds per (configuration, shard)
+    per = max(1, plan["shards"] // len(cfgs))
     jobs = []
-    for sh in range(nsh):
-        cfg = cfgs[sh % len(cfgs)]
-        out = os.path.join(rundir, "stats-%d.json" % sh)
-        jr = os.path.join(rundir, "journal-%d.txt" % sh)
-        logbase = os.path.join(rundir, "san-%d" % sh)
-        cmd = [binaries[cfg], "check", prop, "--cases", str(plan["cases"]), "--scale", str(plan["scale"]),
-               "--maxsize", str(plan.get("maxsize", 100)), "--tier", "1" if tier == "thorough" else "0",
-               "--shard", str(sh), "--nshards", str(nsh), "--seed", str(seed_for(seed, prop, cfg, sh)),
-               "--out", out, "--journal", jr] + (extra_args or [])
-        jobs.append(dict(sh=sh, cfg=cfg, cmd=cmd, out=out, journal=jr, logbase=logbase))
+    for ci, cfg in enumerate(cfgs):
+        for sh in range(per):
+            tag = "%s-%d" % (cfg, sh)
+            out = os.path.join(rundir, "stats-%s.json" % tag)
+            jr = os.path.join(rundir, "journal-%s.txt" % tag)
+            logbase = os.path.join(rundir, "san-%s" % tag)
+            cmd = [binaries[cfg], "check", prop, "--cases", str(plan["cases"]), "--scale", str(plan["scale"]),
+                   "--maxsize", str(plan.get("maxsize", 100)), "--tier", "1" if tier == "thorough" else "0",
+                   "--shard", str(sh), "--nshards", str(per), "--seed", str(seed_for(seed, prop, cfg, sh)),
+                   "--out", out, "--journal", jr] + (extra_args or [])
+            jobs.append(dict(sh=sh, cfg=cfg, cmd=cmd, out=out, journal=jr, logbase=logbase))
 
     def runjob(j):
-        r = subprocess.run(j["cmd"], stdout=subprocess.PIPE, stderr=subprocess.PIPE,
-                           env=san_env(j["logbase"], strict, extra_env))
+        env = san_env(j["logbase"], strict, extra_env)
+        env["VF_TMP"] = rundir
+        if plan.get("san_to_stderr"):
+            env["ASAN_OPTIONS"] = re.sub(r":log_path=[^:]*", "", env["ASAN_OPTIONS"])
+            env["UBSAN_OPTIONS"] = re.sub(r":log_path=[^:]*", "", env["UBSAN_OPTIONS"])
+        r = subprocess.run(j["cmd"], stdout=subprocess.PIPE, stderr=subprocess.PIPE, env=env)
         j["rc"] = r.returncode
         j["stdout"] = r.stdout.decode(errors="replace")
         j["stderr"] = r.stderr.decode(errors="replace")[-4000:]
@@ -365,10 +378,11 @@ def main():
     try:
         plan = PLANS[prop][tier]
         binaries = vbuild.build(plan["cfgs"])
-        reg = regression_tier(prop, binaries, plan["cfgs"][0])
-        merged = generic_check(prop, tier, seed, plan, binaries)
+        reg = regression_tier(prop, binaries, plan["cfgs"][0], strict=bool(plan.get("strict")))
+        strict = bool(plan.get("strict"))
+        merged = generic_check(prop, tier, seed, plan, binaries, strict=strict)
         rule = subprocess.run([binaries[plan["cfgs"][0]], "rule", prop], stdout=subprocess.PIPE).stdout.decode().strip()
-        rc = finish(prop, tier, seed, PLANS[prop]["level"], merged, reg, rule, t0)
+        rc = finish(prop, tier, seed, PLANS[prop]["level"], merged, reg, rule, t0, strict=strict)
     except RuntimeError as e:
         log("infrastructure failure:", str(e)[-3000:])
         sys.exit(2)
